@@ -32,7 +32,7 @@ Theorem C20_frames_decode : forall ver phone cs k cmd body,
     m_id m = (if cmd =? 0 then 2 else cmd) /\
     m_bcd m = phone_bcd ver phone /\ strip0 (phone_of m) = strip0 (map dchar phone) /\
     m_ver m = (if ver =? V2019 then 1 else 0) /\ m_frag m = 0 /\ m_enc m = 0 /\
-    m_serial m = N.of_nat (S k) mod 65536 /\ m_body m = body /\ m_len m = len body.
+    m_serial m = N.of_nat (S k) mod 65536 /\ m_body m = body /\ m_len m = len body /\ m_sum m = 0.
 Proof. exact frames_decode. Qed.
 Print Assumptions C20_frames_decode.
 
@@ -56,7 +56,7 @@ Theorem C20_calls_frames_decode : forall ver phone cs k cmd body,
     m_id m = (if cmd =? 0 then 2 else cmd) /\
     m_bcd m = phone_bcd ver phone /\ strip0 (phone_of m) = strip0 (map dchar phone) /\
     m_ver m = (if ver =? V2019 then 1 else 0) /\ m_frag m = 0 /\ m_enc m = 0 /\
-    m_serial m = N.of_nat (S k) mod 65536 /\ m_body m = body /\ m_len m = len body.
+    m_serial m = N.of_nat (S k) mod 65536 /\ m_body m = body /\ m_len m = len body /\ m_sum m = 0.
 Proof. exact calls_frames_decode. Qed.
 Print Assumptions C20_calls_frames_decode.
 
@@ -86,7 +86,9 @@ Proof. exact calls_first_serial. Qed.
 Print Assumptions C20_first_serial.
 
 (* the reply the simulator predicts is, byte for byte, the frame the server's writer sends: for
-   every frame [f] of a command that the simulator supports and the server answers, every state of
+   every frame [f] of a command that the simulator supports and the server answers (sim_reply_ids),
+   that is complete (not a lone fragment), not a too-short 2019 0x0102 and whose body is well formed
+   as far as the reply needs it (body_wf; outside it: C20_refuted_expected_reply_malformed_1212), every state of
    the simulator (whatever it predicted before), every state [c] of the connection whose next
    message is [f] (whatever the connection's handlers parsed before), platform serial = the
    connection's counter *)
@@ -100,9 +102,31 @@ Theorem C20_expected_reply : forall t c d q f,
 Proof. exact expected_reply_is_server_reply. Qed.
 Print Assumptions C20_expected_reply.
 
-(* the hypotheses of C20_expected_reply hold for EVERY default frame of a reply-bearing command, in
-   every version (and every default body fits a frame): the simulator's own frames are inside the
-   theorem's domain *)
+(* a generated frame is never a fragment (m_sum m = 0 above), so as a delivered message it is complete:
+   the hypothesis [has_complete] of C20_expected_reply holds for every generated frame *)
+Theorem C20_generated_frames_complete : forall d, m_sum (d_m d) = 0 -> has_complete d = true.
+Proof. exact unfragmented_complete. Qed.
+Print Assumptions C20_generated_frames_complete.
+
+(* every default body (3 versions x 24 commands) fits a frame, so C20_calls_frames_decode applies to
+   every CDefault call *)
+Theorem C20_default_bodies_fit : forall ver cmd b, default_body ver cmd = Some b -> (length b <= 1023)%nat.
+Proof. exact default_bodies_fit. Qed.
+Print Assumptions C20_default_bodies_fit.
+
+(* NOT repaired, known finding C20/body-over-1023: a custom body that does not fit the 10-bit length
+   field is not refused; the frame generated for 1024 zero bytes is rejected by the decoder (the
+   unmasked length sets the encryption bit and announces length 0).  All other statements are for
+   bodies of at most 1023 bytes. *)
+Theorem C20_refuted_body_over_1023 : decode ex_long_frame = Err E_BODY_LEN.
+Proof. exact refuted_body_over_1023. Qed.
+Print Assumptions C20_refuted_body_over_1023.
+
+(* the body-dependent hypotheses of C20_expected_reply (body_wf, not a too-short 0x0102) hold for EVERY
+   default frame of a reply-bearing command, in every version; together with
+   C20_generated_frames_complete (has_complete) and the decode / m_id conjuncts of
+   C20_calls_frames_decode all hypotheses of C20_expected_reply are delivered for the simulator's own
+   default frames *)
 Theorem C20_default_frames_in_domain : forall ver cmd b m,
   In ver [V2011; V2013; V2019] -> In cmd sim_reply_ids -> default_body ver cmd = Some b ->
   m_id m = cmd -> m_ver m = (if ver =? V2019 then 1 else 0) -> m_body m = b ->
@@ -153,3 +177,11 @@ Example C20_expected_reply_instance :
   exists r, map wire_bytes (writes (run (dm f))) = [r] /\
             snd (expected_reply (sim0 V2013 [7; 5; 0; 9]) 0 f) = Some r.
 Proof. exact example_expected_reply. Qed.
+(* an instance of C20_expected_no_reply: a 2019 0x0102 with a 2-byte body generated by the simulator *)
+Example C20_expected_no_reply_instance :
+  match dm ex_short_0102 with
+  | [d] => m_id (d_m d) = 0x0102 /\ auth_too_short (d_m d) = true /\
+           snd (expected_reply (sim0 V2019 [1]) 7 ex_short_0102) = None /\ writes (run [d]) = []
+  | _ => False
+  end.
+Proof. exact example_expected_no_reply. Qed.
